@@ -8,6 +8,7 @@ import (
 	"fmt"
 	"reflect"
 	"runtime/debug"
+	"sort"
 	"strings"
 	"unsafe"
 
@@ -257,40 +258,82 @@ func runC06(c *Ctx) Result {
 				}
 			}
 		case 7, 8: // decode from a []byte, then scribble over the caller's input
-			ty := types[g.d(nTypes)]
-			v := z.Value(ty, 0)
-			text, err := json.Marshal(map[string]interface{}{"v": v.Interface(), "s": g.str(), "raw": json.RawMessage(`{"k":"` + g.str()[:0] + `vvv"}`)})
-			if err != nil {
+			var text []byte
+			var err error
+			var dstp reflect.Value
+			dstKind := g.d(3)
+			switch dstKind {
+			case 0: // into interface{}
+				v := z.Value(types[g.d(nTypes)], 0)
+				text, err = json.Marshal(map[string]interface{}{"v": v.Interface(), "s": g.str(), "n": json.Number(g.num()), "raw": json.RawMessage(`{"k":"` + g.str()[:0] + `vvv"}`)})
+				dstp = reflect.ValueOf(new(interface{}))
+			case 1: // into the generated type itself
+				ty := types[g.d(nTypes)]
+				text, err = json.Marshal(z.Value(ty, 0).Interface())
+				dstp = reflect.New(ty)
+			default: // every string-carrying destination kind, quoted (",string") fields included
+				text = []byte(c06DstText(g))
+				dstp = reflect.New(reflect.TypeOf(c06Dst{}))
+			}
+			if err != nil || len(text) == 0 {
 				continue
 			}
 			input := append([]byte(nil), text...)
-			var dst interface{}
+			ob := g.d(16) // UseNumber / UseInt64 / ValidateString / CaseSensitive
+			if ob&3 == 3 {
+				ob &^= 2
+			}
+			cfg := sonic.Config{UseNumber: ob&1 != 0, UseInt64: ob&2 != 0, ValidateString: ob&4 != 0, CaseSensitive: ob&8 != 0, CopyString: kind == 8}
+			var derr error
 			if kind == 7 {
-				name = "Unmarshal([]byte)"
+				name = fmt.Sprintf("Unmarshal([]byte)(dst=%d,opts=%#x)", dstKind, ob)
 				hist = append(hist, name)
-				if err := sonic.Unmarshal(input, &dst); err != nil {
-					continue
+				switch g.d(3) {
+				case 0:
+					derr = sonic.Unmarshal(input, dstp.Interface())
+				case 1:
+					derr = sonic.ConfigStd.Unmarshal(input, dstp.Interface())
+				default:
+					derr = cfg.Froze().Unmarshal(input, dstp.Interface())
 				}
 			} else {
-				name = "Decoder+CopyString"
+				name = fmt.Sprintf("Decoder+CopyString(dst=%d,opts=%#x)", dstKind, ob)
 				hist = append(hist, name)
-				d := decoder.NewDecoder(unsafe.String(&input[0], len(input)))
-				d.CopyString()
-				if err := d.Decode(&dst); err != nil {
-					continue
+				in := unsafe.String(&input[0], len(input))
+				switch g.d(3) {
+				case 0:
+					d := decoder.NewDecoder(in)
+					d.CopyString()
+					if ob&1 != 0 {
+						d.UseNumber()
+					}
+					if ob&2 != 0 {
+						d.UseInt64()
+					}
+					if ob&4 != 0 {
+						d.ValidateString()
+					}
+					derr = d.Decode(dstp.Interface())
+				case 1:
+					derr = cfg.Froze().UnmarshalFromString(in, dstp.Interface())
+				default:
+					derr = sonic.ConfigStd.UnmarshalFromString(in, dstp.Interface()) // ConfigStd sets CopyString
 				}
 			}
-			before, _ := json.Marshal(dst)
+			if derr != nil {
+				c.inc("decode_errors_still_checked")
+			}
+			before := deepShow(dstp.Elem())
 			for i := range input {
 				input[i] = 'X'
 			}
 			c.inc("fault_input_scribbled")
-			after, _ := json.Marshal(dst)
-			if !bytes.Equal(before, after) {
-				return fail("decoded-value-aliases-input:"+strings.SplitN(name, "(", 2)[0], fmt.Sprintf("%s: the decoded value changed when the caller overwrote its input buffer: %q -> %q", name, clip(string(before), 100), clip(string(after), 100)))
+			after := deepShow(dstp.Elem())
+			if before != after {
+				return fail("decoded-value-aliases-input:"+strings.SplitN(name, "(", 2)[0]+[]string{":iface", ":generated", ":c06Dst"}[dstKind], fmt.Sprintf("%s: the decoded value changed when the caller overwrote its input buffer: %q -> %q (input %q)", name, clip(diffAround(before, after), 120), clip(diffAround(after, before), 120), clip(string(text), 200)))
 			}
-			d := dst
-			keep(name+" value", func() []byte { b, _ := json.Marshal(d); return b })
+			d := dstp.Elem()
+			keep(name+" value", func() []byte { return []byte(deepShow(d)) })
 		case 9: // Get([]byte): the node must not alias the caller's buffer
 			doc := g.Container()
 			input := []byte(doc)
@@ -360,4 +403,156 @@ func unsafeBytes(s string) []byte {
 		return nil
 	}
 	return unsafe.Slice(unsafe.StringData(s), len(s))
+}
+
+// c06Dst has one field per way a decoded value can carry bytes of the input.
+type c06Dst struct {
+	N   json.Number
+	Q   string      `json:",string"`
+	QP  *string     `json:",string"`
+	QN  json.Number `json:",string"`
+	QI  int64       `json:",string"`
+	I   interface{}
+	M   map[string]interface{}
+	MS  map[string]string
+	U   map[string]json.Number
+	R   json.RawMessage
+	S   string
+	PS  *string
+	B   []byte
+	A   []interface{}
+	SS  []string
+	E   struct {
+		X string
+		Y json.Number
+		Z interface{}
+	}
+	EP *struct{ X string }
+}
+
+func c06DstText(g *gen) string {
+	var parts []string
+	add := func(k, v string) {
+		if g.d(3) != 0 {
+			parts = append(parts, quoteJSON(k)+":"+v)
+		}
+	}
+	qs := func() string { return quoteJSON(g.str()) }
+	plain := func() string { return `"` + []string{"plain", "abcdefgh", "0123456789012345678901234567890123456789", "x"}[g.d(4)] + `"` }
+	add("N", g.num())
+	add("Q", quoteJSON(plain()))
+	add("Q", quoteJSON(qs()))
+	add("QP", quoteJSON(plain()))
+	add("QN", `"`+g.num()+`"`)
+	add("QI", `"`+fmt.Sprint(g.d(100000)-50000)+`"`)
+	add("I", g.Doc())
+	add("I", g.num())
+	add("M", `{"k1":`+g.num()+`,"k2":`+qs()+`,"k3":[`+g.num()+`,`+plain()+`]}`)
+	add("MS", `{"plainkey":`+plain()+`,`+qs()+`:`+qs()+`}`)
+	add("U", `{"a":`+g.num()+`,"b":`+g.num()+`}`)
+	add("R", g.Doc())
+	add("S", plain())
+	add("S", qs())
+	add("PS", plain())
+	add("B", `"aGVsbG8gd29ybGQ="`)
+	add("A", `[`+g.num()+`,`+plain()+`,`+qs()+`,{"n":`+g.num()+`}]`)
+	add("SS", `[`+plain()+`,`+qs()+`]`)
+	add("E", `{"X":`+plain()+`,"Y":`+g.num()+`,"Z":`+g.num()+`}`)
+	add("EP", `{"X":`+plain()+`}`)
+	add("unknown", g.Doc())
+	return "{" + strings.Join(parts, ",") + "}"
+}
+
+// deepShow renders every byte reachable from v (pointers and interfaces followed, map
+// entries sorted by their rendering).
+func deepShow(v reflect.Value) string {
+	var sb strings.Builder
+	deepShowW(&sb, v, 0)
+	return sb.String()
+}
+
+func deepShowW(sb *strings.Builder, v reflect.Value, depth int) {
+	if depth > 40 {
+		sb.WriteString("<deep>")
+		return
+	}
+	if !v.IsValid() {
+		sb.WriteString("<nil>")
+		return
+	}
+	switch v.Kind() {
+	case reflect.Ptr, reflect.Interface:
+		if v.IsNil() {
+			sb.WriteString("nil")
+			return
+		}
+		sb.WriteString("&")
+		deepShowW(sb, v.Elem(), depth+1)
+	case reflect.Struct:
+		sb.WriteString("{")
+		for i := 0; i < v.NumField(); i++ {
+			sb.WriteString(v.Type().Field(i).Name + ":")
+			deepShowW(sb, v.Field(i), depth+1)
+			sb.WriteString(" ")
+		}
+		sb.WriteString("}")
+	case reflect.Map:
+		if v.IsNil() {
+			sb.WriteString("nilmap")
+			return
+		}
+		var ents []string
+		it := v.MapRange()
+		for it.Next() {
+			var e strings.Builder
+			deepShowW(&e, it.Key(), depth+1)
+			e.WriteString("=>")
+			deepShowW(&e, it.Value(), depth+1)
+			ents = append(ents, e.String())
+		}
+		sort.Strings(ents)
+		sb.WriteString("map[" + strings.Join(ents, " ") + "]")
+	case reflect.Slice, reflect.Array:
+		if v.Kind() == reflect.Slice && v.IsNil() {
+			sb.WriteString("nilslice")
+			return
+		}
+		if v.Type().Elem().Kind() == reflect.Uint8 {
+			b := make([]byte, v.Len())
+			reflect.Copy(reflect.ValueOf(b), v)
+			sb.WriteString(fmt.Sprintf("bytes%q", b))
+			return
+		}
+		sb.WriteString("[")
+		for i := 0; i < v.Len(); i++ {
+			deepShowW(sb, v.Index(i), depth+1)
+			sb.WriteString(" ")
+		}
+		sb.WriteString("]")
+	case reflect.String:
+		sb.WriteString(fmt.Sprintf("%q", v.String()))
+	case reflect.Bool:
+		sb.WriteString(fmt.Sprint(v.Bool()))
+	case reflect.Int, reflect.Int8, reflect.Int16, reflect.Int32, reflect.Int64:
+		sb.WriteString(fmt.Sprint(v.Int()))
+	case reflect.Uint, reflect.Uint8, reflect.Uint16, reflect.Uint32, reflect.Uint64, reflect.Uintptr:
+		sb.WriteString(fmt.Sprint(v.Uint()))
+	case reflect.Float32, reflect.Float64:
+		sb.WriteString(fmt.Sprint(v.Float()))
+	default:
+		sb.WriteString("<" + v.Kind().String() + ">")
+	}
+}
+
+// diffAround returns the part of a around the first position where it differs from b.
+func diffAround(a, b string) string {
+	i := 0
+	for i < len(a) && i < len(b) && a[i] == b[i] {
+		i++
+	}
+	from := i - 30
+	if from < 0 {
+		from = 0
+	}
+	return a[from:]
 }
